@@ -1,7 +1,7 @@
 CHECK = {
     "obligations": ["C12.c12_count", "C12.c12_teardown", "C12.c12_refuses", "C12.c12_timeout", "C12.c12_timeout_witness", "C12.c12_backlog_bounded", "C12.c12_conns",
                     "C12.gen_structure", "C12.gen_timeout", "C12.gen_pipe_limit", "C12.gen_accept", "C12.gen_late_conn", "C12.gen_wake_all", "C12.c12_accept_drains_queue", "C12.c12_pinned_open_witness", "C12.c12_close_always_sweeps", "C12.c12_close_pinned_witness", "C12.gen_refusal", "C12.c12_refused_is_told", "C12.c12_refusal_events",
-                    "C12L.c12_lock_order", "C12L.gen_rank_ordered", "C12L.gen_nontrivial", "C12L.ok_iff_ctx", "Locks.locks_rank_ordered_no_deadlock"],
+                    "C12L.c12_lock_order", "C12L.gen_rank_ordered", "C12L.gen_nontrivial", "C12L.gen_send_prologue", "C12L.ok_iff_ctx", "Locks.locks_rank_ordered_no_deadlock"],
     "lean_module": "CloakModel.Props.C12Locks",
     "scenarios": ["C12"],
     "reset_ops": ["ss.new"],
@@ -10,5 +10,5 @@ CHECK = {
             "frame boundary of 1..4 in-flight frames; the OpenStream-vs-Close schedule via VerifPoint; accept-backlog overflow (1024+8 streams: refusals told, nothing drifts); a connection handed over after the teardown, while the first one is parked inside addConn, and while AddConnection is inside the connection's own LocalAddr/RemoteAddr; the closer of the last stream parked right before arming the inactivity check while another stream is opened; 2-3 Reads on one stream and 2 Accepts parked at teardown (four kinds of teardown, both pipes); the inactivity check parked between its test and its Close. The state compared after every operation includes the stream-closing frames / session notices each side has put on the wire. distinct = distinct op-kind sequences; all non-trivial",
     "assumptions": ["sync.Cond/channel wake-ups and timers are runtime behaviour: covered by the harness monitors under testing/synctest, not by the theorems",
                     "a connection fault is seen by both ends (property text)",
-                    "lock order: a loop body is counted once; sync.Cond.Wait and the one channel send under streamsM (acceptCh, capacity 1024) return; RWMutex treated like Mutex"],
+                    "lock order: a loop body is counted once; sync.Cond.Wait and the one channel send under streamsM (acceptCh, capacity 1024) return; RWMutex treated like Mutex; the turnstile of send (a channel of capacity one, nothing but the broken test and the limiter's bounded sleep inside: C12L.gen_send_prologue) is not a lock of the order"],
 }
